@@ -47,6 +47,16 @@ func ParseDateTime(value string) (DateTime, error) {
 			} else {
 				t = t.In(time.FixedZone("", offset))
 			}
+			// time.Parse reads a fraction of any length after the seconds even when the layout
+			// has none: such a value has sub-second precision.
+			if t.Nanosecond() != 0 {
+				switch l {
+				case dtSecondLayoutTZ:
+					l = dtMillisecondLayoutTZ
+				case dtSecondLayout:
+					l = dtMillisecondLayout
+				}
+			}
 			return DateTime{t, layout(l)}, nil
 		}
 	}
@@ -85,11 +95,20 @@ func DateTimeFromProto(proto *dtpb.DateTime) (DateTime, error) {
 	case dtpb.DateTime_YEAR:
 		l = dtYearLayout
 	}
+	// The value carries nothing below its precision. A partial dateTime carries no time zone
+	// either: keep the calendar date the element denotes, at UTC midnight, exactly as a parsed
+	// partial literal is represented.
 	switch proto.Precision {
-	case dtpb.DateTime_DAY, dtpb.DateTime_MONTH, dtpb.DateTime_YEAR:
-		// A partial dateTime carries no time zone: keep the calendar date the element denotes,
-		// at UTC midnight, exactly as a parsed partial literal is represented.
+	case dtpb.DateTime_MILLISECOND:
+		t = t.Truncate(time.Millisecond)
+	case dtpb.DateTime_SECOND:
+		t = t.Truncate(time.Second)
+	case dtpb.DateTime_DAY:
 		t = time.Date(t.Year(), t.Month(), t.Day(), 0, 0, 0, 0, time.UTC)
+	case dtpb.DateTime_MONTH:
+		t = time.Date(t.Year(), t.Month(), 1, 0, 0, 0, 0, time.UTC)
+	case dtpb.DateTime_YEAR:
+		t = time.Date(t.Year(), time.January, 1, 0, 0, 0, 0, time.UTC)
 	}
 	return DateTime{t, l}, nil
 }
@@ -101,8 +120,11 @@ func instantFromProto(proto *dtpb.Instant) (DateTime, error) {
 	if err != nil {
 		return DateTime{}, err
 	}
-	if proto.Precision == dtpb.Instant_SECOND {
-		return DateTime{t, dtSecondLayoutTZ}, nil
+	switch proto.Precision {
+	case dtpb.Instant_SECOND:
+		return DateTime{t.Truncate(time.Second), dtSecondLayoutTZ}, nil
+	case dtpb.Instant_MILLISECOND:
+		return DateTime{t.Truncate(time.Millisecond), dtMillisecondLayoutTZ}, nil
 	}
 	return DateTime{t, dtMillisecondLayoutTZ}, nil
 }
@@ -282,7 +304,19 @@ func (dt DateTime) Name() string {
 
 // String returns a formatted DateTime string.
 func (dt DateTime) String() string {
-	return dt.dateTime.Format(string(dt.l))
+	return dt.dateTime.Format(fractionLayout(string(dt.l), dt.dateTime.Nanosecond()))
+}
+
+// fractionLayout widens the ".000" of a millisecond layout when the value carries finer digits,
+// so that the string form denotes the same value.
+func fractionLayout(l string, nanoseconds int) string {
+	switch {
+	case nanoseconds%1000000 == 0:
+		return l
+	case nanoseconds%1000 == 0:
+		return strings.Replace(l, ".000", ".000000", 1)
+	}
+	return strings.Replace(l, ".000", ".000000000", 1)
 }
 
 // Equal method to override cmp.Equal.
